@@ -13,6 +13,7 @@ import (
 	"os"
 	"reflect"
 	"strconv"
+	"strings"
 	"sync"
 	"time"
 )
@@ -271,3 +272,48 @@ func DeferGo(on bool) {}
 
 // RunSpawned: see DeferGo.
 func RunSpawned() {}
+
+// ---- interference at lock boundaries ----
+//
+// Interfere(f) registers another thread's whole operation f. Under the engine, at every Lock/RLock call of the code that
+// runs afterwards (outside f itself) on a mutex that may be free, a fresh choice variable "intf!<file:line>#<n>" decides
+// whether f runs right there - to completion, once - before the lock is taken: exactly the schedules in which the other
+// thread's operation falls between two critical sections of the first (or before its first one). Natively the replay
+// builds the package with every `X.Lock()` / `X.RLock()` statement preceded by vrt.LockPoint("<file:line>") (done by the
+// driver through a build overlay; line numbers are preserved) and f runs at the lock point the model chose.
+var (
+	interferer func()
+	intfRan    bool
+	inIntf     bool
+	lpCount    map[string]int
+)
+
+func Interfere(f func()) {
+	interferer, intfRan, inIntf, lpCount = f, false, false, map[string]int{}
+}
+
+// InterfererRan reports whether the registered operation has run (intrinsic).
+func InterfererRan() bool { return intfRan }
+
+// LockPoint is called by the instrumented native build before each Lock/RLock statement.
+func LockPoint(pos string) {
+	load()
+	if interferer == nil || inIntf || intfRan || replay == nil {
+		return
+	}
+	lpCount[pos]++
+	hit := replay.Model[fmt.Sprintf("intf!%s#%d", pos, lpCount[pos])] == 1
+	if line, targeted := replay.Params["intf_line"]; targeted {
+		// targeted mode: the interference point is a case parameter (source line, occurrence number)
+		n, ok := replay.Params["intf_n"]
+		if !ok {
+			n = 1
+		}
+		hit = strings.HasSuffix(pos, fmt.Sprintf(":%d", line)) && int64(lpCount[pos]) == n
+	}
+	if hit {
+		inIntf, intfRan = true, true
+		interferer()
+		inIntf = false
+	}
+}
